@@ -248,6 +248,9 @@ type Guard struct {
 	Val  bool
 	// Synth: the fact is the positive form of a false (in)equality, Cond is not a node of the source
 	Synth bool
+	// Derived: the fact was read from the body of a pure predicate that the source calls (isArrow(t)); the call itself
+	// is reported as a fact of its own. Rules that look for *forbidden* dependences skip derived facts.
+	Derived bool
 }
 
 // condOf reports whether the block ends in a two way branch on a boolean
@@ -354,6 +357,17 @@ func expandGuard(cond ast.Expr, val bool, out *[]Guard) {
 			expandGuard(t.X, val, out)
 			expandGuard(t.Y, val, out)
 			return
+		}
+	}
+	// a call of a pure predicate of the module (func isArrow(t Token) bool { return t.typ == tOperate && t.image == "->" })
+	// stands for its body: the facts of the body are added, the call itself is kept as a fact as well
+	if call, ok := cond.(*ast.CallExpr); ok && guardInline != nil {
+		if inl := guardInline(call); inl != nil {
+			from := len(*out)
+			expandGuard(inl, val, out)
+			for i := from; i < len(*out); i++ {
+				(*out)[i].Derived = true
+			}
 		}
 	}
 	cond = canonCompare(cond)
@@ -762,4 +776,40 @@ func (f *FCFG) PathEdgesFromBlock(start *cfg.Block, target, barrier func(ast.Nod
 		return true, hit
 	}
 	return false, nil
+}
+
+// guardInline is set by the loader: for a call of a function of the module whose body is a single return of a
+// boolean expression over its parameters it returns that expression with the parameters replaced by the arguments
+// (new nodes for the operators, the operands are shared with the source); nil otherwise.
+var guardInline func(call *ast.CallExpr) ast.Expr
+
+var guardInlineCache = map[*ast.CallExpr]ast.Expr{}
+
+func substExpr(e ast.Expr, sub map[types.Object]ast.Expr, info *types.Info) (ast.Expr, bool) {
+	switch t := e.(type) {
+	case *ast.Ident:
+		if r, ok := sub[info.ObjectOf(t)]; ok {
+			return r, true
+		}
+		return t, true
+	case *ast.BasicLit:
+		return t, true
+	case *ast.ParenExpr:
+		x, ok := substExpr(t.X, sub, info)
+		return &ast.ParenExpr{X: x}, ok
+	case *ast.UnaryExpr:
+		x, ok := substExpr(t.X, sub, info)
+		return &ast.UnaryExpr{Op: t.Op, OpPos: t.OpPos, X: x}, ok
+	case *ast.BinaryExpr:
+		x, ok1 := substExpr(t.X, sub, info)
+		y, ok2 := substExpr(t.Y, sub, info)
+		return &ast.BinaryExpr{X: x, OpPos: t.OpPos, Op: t.Op, Y: y}, ok1 && ok2
+	case *ast.SelectorExpr:
+		x, ok := substExpr(t.X, sub, info)
+		if x == t.X {
+			return t, ok
+		}
+		return &ast.SelectorExpr{X: x, Sel: t.Sel}, ok
+	}
+	return e, false
 }
